@@ -25,6 +25,8 @@ abbrev MId := Nat
 structure Tn where
   id : Nat
   isParam : Bool
+  /-- an `UninitializedParameter` (lazy modules): placing one registers a forward pre-hook -/
+  lazy : Bool := false
   deriving DecidableEq, Repr, Inhabited
 
 /-- insertion-ordered Python dict with `str` keys -/
@@ -60,6 +62,7 @@ structure Mod where
   kids    : Dict (Option MId) := []    -- module._modules      (None entries allowed)
   custom  : Bool := false              -- type(module).__setattr__ is not nn.Module.__setattr__
   nonPersistent : List Name := []      -- module._non_persistent_buffers_set
+  preHooks : Nat := 0                  -- len(module._forward_pre_hooks)
   deriving Repr, Inhabited
 
 abbrev Heap := MId → Mod
@@ -86,12 +89,15 @@ inductive Err where
 /-- re-insertion "by kind" at the end of `_set_tensor_dict` (repaired order: a buffer slot stays a buffer slot) -/
 def place (md : Mod) (name : Name) (t : Tn) (wasBuffer : Bool) : Mod :=
   if wasBuffer then { md with buffers := md.buffers.set name (some t) }
-  else if t.isParam then { md with params := md.params.set name (some t) }
+  else if t.isParam then
+    -- `if isinstance(tensor, UninitializedTensorMixin): module.register_forward_pre_hook(_add_batch_dim_pre_hook())`
+    { md with params := md.params.set name (some t), preHooks := md.preHooks + (if t.lazy then 1 else 0) }
   else { md with plain := md.plain.set name t }
 
 /-- the pinned order: `isinstance(tensor, Parameter)` is tested first -/
 def placeOld (md : Mod) (name : Name) (t : Tn) (wasBuffer : Bool) : Mod :=
-  if t.isParam then { md with params := md.params.set name (some t) }
+  if t.isParam then
+    { md with params := md.params.set name (some t), preHooks := md.preHooks + (if t.lazy then 1 else 0) }
   else if wasBuffer then { md with buffers := md.buffers.set name (some t) }
   else { md with plain := md.plain.set name t }
 
@@ -195,6 +201,28 @@ def swapEntriesWith (st : Mod → Name → Tn → Except (Err × Mod) (Mod × Tn
           match swapEntriesWith st h1 ((c, some sw) :: memo1) m rest with
           | .error e => .error e
           | .ok (h', memo', outs) => .ok (h', memo', (k, .node sw) :: outs)
+
+/-- `params.to_module(module, return_swap=False)`: the same loop without the swap dicts. Nothing is recorded in the
+memo (`memo[weakref.ref(module)] = _swap` is under `if return_swap`), so a submodule reached twice is written twice
+(the last sub-tensordict wins) and the recursion is bounded by the parameter tensordict alone. -/
+def installEntriesWith (st : Mod → Name → Tn → Except (Err × Mod) (Mod × Tn))
+    (h : Heap) (m : MId) : List (Name × PTree) → Except (Err × Heap) Heap
+  | [] => .ok h
+  | (k, .leaf t) :: rest =>
+    match st (h m) k t with
+    | .error (e, md) => .error (e, h.upd m md)
+    | .ok (md, _) => installEntriesWith st (h.upd m md) m rest
+  | (k, .node es) :: rest =>
+    match (h m).kids.get? k with
+    | none => .error (.key, h)
+    | some none => .error (.type, h)
+    | some (some c) =>
+      match installEntriesWith st h c es with
+      | .error e => .error e
+      | .ok h1 => installEntriesWith st h1 m rest
+
+def install (h : Heap) (m : MId) (p : List (Name × PTree)) : Except (Err × Heap) Heap :=
+  installEntriesWith setTensor h m p
 
 def swapEntries := swapEntriesWith setTensor
 
